@@ -945,20 +945,33 @@ impl TypeEntry {
             });
 
         let convenience_from = {
-            // Build a map whose key is the type ID or type IDs of the Item and
+            // Build a map whose key is the type or types of the Item and
             // Tuple variants, and whose value is a tuple of the original index
             // and the variant itself. Any key that is seen multiple times has
-            // a value of None.
+            // a value of None. The key is the type as rendered rather than
+            // its ID: distinct IDs can render to the same Rust type (a set
+            // and an array of the same item type are both `Vec<T>`), and two
+            // `From` impls for one type conflict.
             // TODO this requires more consideration to handle single-item
             // tuples.
+            let rendered = |type_id: &TypeId| {
+                type_space
+                    .id_to_entry
+                    .get(type_id)
+                    .unwrap()
+                    .type_ident(type_space, &None)
+                    .to_string()
+            };
             let unique_variants =
                 variants
                     .iter()
                     .enumerate()
                     .fold(BTreeMap::new(), |mut map, (index, variant)| {
                         let key = match &variant.details {
-                            VariantDetails::Item(type_id) => vec![type_id],
-                            VariantDetails::Tuple(type_ids) => type_ids.iter().collect(),
+                            VariantDetails::Item(type_id) => vec![rendered(type_id)],
+                            VariantDetails::Tuple(type_ids) => {
+                                type_ids.iter().map(rendered).collect()
+                            }
                             _ => return map,
                         };
 
